@@ -37,6 +37,30 @@ class HasAny:
     n: int = 0
 class TDj(typing.TypedDict):
     a: list
+@dataclasses.dataclass
+class BaseDC:
+    a: int = 0
+@dataclasses.dataclass
+class DerivedDC(BaseDC):
+    b: int = 0
+class BasePC:
+    a: int
+    def __init__(self, a=0):
+        self.a = a
+class DerivedPC(BasePC):
+    b: int
+    def __init__(self, a=0, b=0):
+        self.a, self.b = a, b
+import enum
+class Level(enum.Enum):
+    ONE = 1
+    TWO = 2
+    TEXT_ONE = "1"
+    TEXT_NULL = "null"
+    NONE = None
+@dataclasses.dataclass
+class Holder:
+    item: BaseDC = None
 '''
 OTHER_A = "import dataclasses\n@dataclasses.dataclass\nclass Thing:\n    x: int\ndef call1(f, *a, **k):\n    return f(*a, **k)\n"
 OTHER_B = "import dataclasses\n@dataclasses.dataclass\nclass Thing:\n    x: str\ndef call1(f, *a, **k):\n    return f(*a, **k)\n"
@@ -139,6 +163,30 @@ def alphabet():
     ops.append(Op("build-m(list[Node])", "cyclic", "build", lambda x: type(typelib.marshaller(list[Node])).__name__, lambda: None))
     ops.append(Op("A:u('Thing')", "refs", "unmarshal", lambda x: a["call1"](typelib.unmarshal, "Thing", x), lambda: {"x": "1"}))
     ops.append(Op("B:u('Thing')", "refs", "unmarshal", lambda x: b["call1"](typelib.unmarshal, "Thing", x), lambda: {"x": "1"}))
+    BaseDC, DerivedDC, BasePC, DerivedPC, Level, Holder = (m[k] for k in ("BaseDC", "DerivedDC", "BasePC", "DerivedPC", "Level", "Holder"))
+    # a base-class instance and an instance of a field-adding subclass (per-class strategy memos must not be inherited)
+    ma("m(BaseDC(1))", "inherit", BaseDC, lambda: BaseDC(1))
+    ma("m(DerivedDC(1,2))", "inherit", DerivedDC, lambda: DerivedDC(1, 2))
+    ma("m(BasePC(1))", "inherit", BasePC, lambda: BasePC(1))
+    ma("m(DerivedPC(1,2))", "inherit", DerivedPC, lambda: DerivedPC(1, 2))
+    um("u(DerivedDC,DerivedDC(1,2))", "inherit", DerivedDC, lambda: DerivedDC(1, 2))
+    um("u(BaseDC,BaseDC(1))", "inherit", BaseDC, lambda: BaseDC(1))
+    um("u(dict,DerivedPC(1,2))", "inherit", lambda: dict[str, int], lambda: DerivedPC(1, 2))
+    # an enum whose member values collide once text is decoded ("1" is a member, so is 1)
+    um("u(Level,'2')", "enum", Level, lambda: "2")
+    um("u(Level,'1')", "enum", Level, lambda: "1")
+    um("u(Level,1)", "enum", Level, lambda: 1)
+    um("u(Level,b'1')", "enum", Level, lambda: b"1")
+    um("u(Level,'null')", "enum", Level, lambda: "null")
+    um("u(Level,None)", "enum", Level, lambda: None)
+    ma("m(Level.TEXT_ONE)", "enum", Level, lambda: Level.TEXT_ONE)
+    # one structured routine fed values of different shapes
+    ma("m({'a':1},BaseDC)", "struct", BaseDC, lambda: {"a": 1})
+    ma("m(BaseDC(1),BaseDC)", "struct", BaseDC, lambda: BaseDC(1))
+    ma("m(DerivedDC(1,2),BaseDC)", "struct", BaseDC, lambda: DerivedDC(1, 2))
+    ma("m(Holder(DerivedDC))", "struct", Holder, lambda: Holder(DerivedDC(1, 2)))
+    ma("m(Holder(BaseDC))", "struct", Holder, lambda: Holder(BaseDC(1)))
+    ma("m(Holder({'a':1}))", "struct", Holder, lambda: Holder({"a": 1}))
     ops.append(Op("build-codec(list[int])", "json", "build", lambda x: type(typelib.codec(list[int])).__name__, lambda: None))
     ops.append(Op("ENV:mutate-results", "env", "env", None))
     ops.append(Op("ENV:mutate-inputs", "env", "env", None))
@@ -297,26 +345,32 @@ def opsig(i):
 
 
 FAM_CAP = {"quick": 6, "thorough": 8}  # operations of one family used in the deeper family-local histories
+# full: every sequence of that length; related: the probe (last operation) shares its family with an earlier operation of the
+# sequence or an environment move precedes it; local: sequences over one family + environment moves
+DEPTHS = {
+    "quick": {"full": 2, "related": 3, "local": 5},
+    "thorough": {"full": 3, "related": 4, "local": 6},
+}
 
 
 @functools.lru_cache(maxsize=None)
 def blocks(tier):
-    """The history space as blocks (operation indices, length): all sequences of that length over those operations.
-    Never materialised: a unit is a range of mixed-radix indices of one block (see seq_at)."""
+    """The history space as blocks (operation indices, length, mode): all sequences of that length over those operations that
+    the mode admits. Never materialised: a unit is a range of mixed-radix indices of one block (see seq_at)."""
     ops = alphabet()
     allops = tuple(range(len(ops)))
-    K = 3 if tier == "quick" else 4
-    KL = 5 if tier == "quick" else 6
-    out = [(allops, k) for k in range(1, K + 1)]
+    D = DEPTHS[tier]
+    out = [(allops, k, "full") for k in range(1, D["full"] + 1)]
+    out += [(allops, k, "related") for k in range(D["full"] + 1, D["related"] + 1)]
     env = [i for i in allops if ops[i].kind == "env"]
     for f in sorted({o.family for o in ops if o.family != "env"}):
         fam = [i for i in allops if ops[i].family == f][: FAM_CAP[tier]]
-        out += [(tuple(fam + env), k) for k in range(K + 1, KL + 1)]
+        out += [(tuple(fam + env), k, "local") for k in range(D["related"] + 1, D["local"] + 1)]
     return out
 
 
 def seq_at(block, idx):
-    loc, k = block
+    loc, k = block[0], block[1]
     n = len(loc)
     s = []
     for _ in range(k):
@@ -325,23 +379,27 @@ def seq_at(block, idx):
     return tuple(reversed(s))
 
 
-def admitted(s, ops, local):
-    if ops[s[-1]].kind == "env":
+def admitted(s, ops, mode):
+    last = ops[s[-1]]
+    if last.kind == "env":
         return False  # the last operation is the probe
-    # family-local blocks: skip sequences with two consecutive identical env moves (idempotent)
-    return not (local and any(a == b and ops[a].kind == "env" for a, b in zip(s, s[1:])))
+    if mode == "related":
+        return any(ops[i].family == last.family or ops[i].kind == "env" for i in s[:-1])
+    if mode == "local":
+        # skip sequences with two consecutive identical env moves (idempotent)
+        return not any(a == b and ops[a].kind == "env" for a, b in zip(s, s[1:]))
+    return True
 
 
 def sequences(tier, unit=None):
     """Generator over the admitted sequences of one unit (or of the whole tier)."""
     ops = alphabet()
-    K = 3 if tier == "quick" else 4
     us = [unit] if unit is not None else [u for u in units(tier) if u[0] == "h"]
     for _, bi, a, b in us:
         block = blocks(tier)[bi]
         for idx in range(a, b):
             s = seq_at(block, idx)
-            if admitted(s, ops, block[1] > K):
+            if admitted(s, ops, block[2]):
                 yield s
 
 
@@ -350,7 +408,7 @@ STEP = 4000
 
 def units(tier):
     us = []
-    for bi, (loc, k) in enumerate(blocks(tier)):
+    for bi, (loc, k, _mode) in enumerate(blocks(tier)):
         n = len(loc) ** k
         us += [("h", bi, a, min(n, a + STEP)) for a in range(0, n, STEP)]
     return us + [("fresh", i, i + 1) for i in range(len(alphabet())) if alphabet()[i].kind != "env"]
@@ -358,15 +416,17 @@ def units(tier):
 
 def meta(tier):
     ops = alphabet()
-    K = 3 if tier == "quick" else 4
+    D = DEPTHS[tier]
     return {
         "rule": f"operation alphabet of {len(ops)} operations in colliding families (both member orders of a union; 1/1.0/True/'1'/b'1'; equal instants with different offsets; JSON text yielding "
-        "mutable results as str and bytes; a cyclic class via class and container root; one bare name from two modules; builds) plus the environment moves mutate-results, mutate-inputs, clear-caches; "
-        f"EVERY sequence of length <= {K} over the whole alphabet and every family-local sequence (family + environment moves) up to length {5 if tier == 'quick' else 6} (the first {FAM_CAP[tier]} operations of a family) is replayed from the cold state and "
+        "mutable results as str and bytes; a cyclic class via class and container root; one bare name from two modules; base / derived class instances; an enum whose member values collide as text; "
+        "one structured routine fed mappings, instances and subclass instances; builds) plus the environment moves mutate-results, mutate-inputs, clear-caches; "
+        f"EVERY sequence of length <= {D['full']} over the whole alphabet, every sequence of length <= {D['related']} whose probe (last operation) has an operation of its own family or an environment move before it, "
+        f"and every family-local sequence (family + environment moves) up to length {D['local']} (the first {FAM_CAP[tier]} operations of a family) is replayed from the cold state and "
         "EVERY operation in it is judged: canonical outcome == outcome of that operation alone in the cold state, input unchanged, result containers disjoint from earlier results and other calls' inputs; "
         "additionally every operation's cold outcome is compared with its outcome in a freshly spawned interpreter; states are identified with histories (cache contents cannot be hashed); "
         "non-trivial = the operation returned; distinct by (history)",
-        "bounds": {"alphabet": [o.name for o in ops], "full_depth": K, "family_depth": 5 if tier == "quick" else 6, "family_ops_in_deeper_histories": FAM_CAP[tier]},
+        "bounds": {"alphabet": [o.name for o in ops], "full_depth": D["full"], "related_depth": D["related"], "family_depth": D["local"], "family_ops_in_deeper_histories": FAM_CAP[tier]},
         "assumptions": ["cold = every typelib cache cleared + typing's own alias caches cleared; cold == fresh process is itself checked"],
         "exhaustive": True,
     }
